@@ -18,6 +18,9 @@ Clauses(c) ==
     (IF c.has_ninja THEN
     << <<"FilenameProduced", Over(c, FilenamesNotProduced)>>,
        <<"FilenameExact", Over(c, FilenamesNotExact)>>,
+       <<"LinkOutputClaimed", LinkOutputsUnclaimed(c)>>,
+       <<"TestRebuildRequestsExist", RequestsUnknown(c)>>,
+       <<"TestRebuildRequestsComplete", RequestsIncomplete(c)>>,
        <<"SourcesConsumed", Over(c, ListedNotConsumed)>>,
        <<"ConsumedListed", Over(c, ConsumedNotListed)>>,
        <<"SourceClassification", Over(c, Misclassified)>>,
@@ -37,8 +40,12 @@ Clauses(c) ==
        <<"InstalledFlag", InstalledFlagWrong(c)>>,
        <<"TreeVsInstalled", TreeVsInstalled(c)>>,
        <<"PlanVsTree", PlanVsTree(c)>>,
+       <<"TreeVsPlan", TreeVsPlan(c)>>,
+       <<"LinksVsInstallData", LinksVsDat(c)>>,
+       <<"InstallFilename", InstallFilenamesWrong(c)>>,
        <<"BuildFilesExist", SeqToSet(c.bs_missing)>>,
-       <<"DefinedInListed", DefinedInMissing(c)>> >>
+       <<"DefinedInListed", DefinedInMissing(c)>>,
+       <<"BuildFilesVsRead", BsVsRead(c)>> >>
     \o
     (IF c.has_p THEN
     << <<"TargetsVsModel", IF c.has_ninja THEN UNION TargetsVsModel(c) ELSE {}>>,
@@ -46,6 +53,8 @@ Clauses(c) ==
        <<"TestsVsModel", ModelTestsWrong(c)>>,
        <<"InstallVsModel", ModelInstallMissing(c)>>,
        <<"InstallSubdirVsModel", ModelSubdirMissing(c)>>,
+       <<"InstallTreeVsModel", InstallTreeVsModel(c)>>,
+       <<"InstallPlanVsModel", InstallPlanVsModel(c)>>,
        <<"BuildFilesVsModel", BsVsModel(c)>> >>
     ELSE << >>)
 
